@@ -81,6 +81,10 @@ func (r *receivingConnProvider) NewConnection() (net.Conn, error) {
 	conn, err := r.listener.Accept()
 	// Log a nicer message when shutting down normally
 	if r.lifetime.Err() != nil {
+		if conn != nil {
+			// Accepted just as we shut down: nobody will use this connection
+			_ = conn.Close()
+		}
 		r.logger.Info("Listener cancelled due to shutdown")
 		return nil, r.lifetime.Err()
 	}
